@@ -174,11 +174,11 @@ def _coord_base(V, e):
     return None
 
 
-def rule_W2b(ctx, prog, label, only_funcs=None, rule='W2b'):
+def rule_W2b(ctx, prog, label, only_funcs=None, rule='W2b', base_of=None, what=None):
     """a local holding a word index / bit position / bit mask derived from a column variable is not used after that column
     variable has been given a new value (assignment, ++, or its address handed to a callee that writes through it)"""
     from .cfg import cfg_of
-    rr = RuleResult(rule, 'derived coordinates (X/64, X%64, 1<<X%64 kept in a local) are never used after X changed on a path from the derivation to the use')
+    rr = RuleResult(rule, what or 'derived coordinates (X/64, X%64, 1<<X%64 kept in a local) are never used after X changed on a path from the derivation to the use')
     eff = ctx.effects(prog)
     for f in sorted(prog.all_funcs(), key=lambda f: (f.file, f.line)):
         if only_funcs is not None and f.name not in only_funcs:
@@ -189,10 +189,10 @@ def rule_W2b(ctx, prog, label, only_funcs=None, rule='W2b'):
             d = fs.single_def(vid)
             if d is None or vid not in fs.decl or fs.decl[vid].kind != 'VarDecl':
                 continue
-            X = _coord_base(None, d)
+            X = _coord_base(None, d) if base_of is None else base_of(f, d)
             if X is None:
                 continue
-            bases = set(x.refid for x in X.walk() if x.kind == 'DeclRefExpr' and x.refkind in ('VarDecl', 'ParmVarDecl'))
+            bases = set(x.refid for x in X.walk() if x.kind == 'DeclRefExpr' and x.refkind in ('VarDecl', 'ParmVarDecl') and (base_of is None or x.refkind == 'ParmVarDecl'))
             if bases:
                 derived.append((vid, d, bases))
         if not derived:
@@ -281,6 +281,21 @@ def rule_W2b(ctx, prog, label, only_funcs=None, rule='W2b'):
                 name = fs.decl[vid].name
                 rr.ob(bad is None, dict(function=f.name, derived=name, definition=pp(d)[:40]) if rr.instances % 7 == 1 else None,
                       Finding(rule, '%s|%s|%s' % (rule, f.name, name), u.loc, f.name,
-                              '`%s` (= %s) is used here although `%s` was given a new value at line %s after `%s` was computed: the coordinate is stale'
+                              '`%s` (= %s) is used here although `%s` was given a new value at line %s after `%s` was computed: the derived value is stale'
                               % (name, pp(d)[:40], fs.decl[bad[0]].name if bad else '', bad[1].line if bad else '', name), {}, label))
+    return rr
+
+
+def rule_W2k(ctx, prog, label, rule='W2k'):
+    """Four-Russians routines: a quantity computed from the table parameter (`kk = NTABLES * k`, per-table splits) is not used
+    after the parameter itself was adjusted - the strip height and the table sizes would come from two different k."""
+    def base_of(f, d):
+        d0 = strip(d, casts=True)
+        if d0 is None or d0.kind != 'BinaryOperator' or d0.op not in ('*', '+', '-', '/', '<<'):
+            return None
+        ps = [x for x in d0.walk() if x.kind == 'DeclRefExpr' and x.refkind == 'ParmVarDecl' and (x.type or '').replace('const', '').strip() == 'int']
+        return d0 if ps else None
+    rr = rule_W2b(ctx, prog, label, rule=rule, base_of=base_of,
+                  what='a value computed from an int parameter (table parameter k, cutoff) is not used after that parameter was given a new value')
+    rr.require_floor(20, 'uses of parameter-derived locals')
     return rr
